@@ -441,12 +441,12 @@ def _job(job):
     return c.items
 
 
-def run_parallel(chk, F, fs, jobs):
-    """jobs: list of (kind, rule, name)"""
+def run_parallel(chk, F, fs, jobs, widths=None):
+    """jobs: list of (kind, rule, name); widths: restrict the backend word sizes analysed"""
     import multiprocessing as mp
     _FACTS[fs] = F
     WIDTHS = {"writer": (8, 16, 32, 64, 128), "copy_from": (8, 16, 32, 64, 128), "bitreader": (64,)}
-    todo = [(k, fs, r, n, w) for (k, r, n) in jobs for w in WIDTHS.get(k, (8, 16, 32, 64))]
+    todo = [(k, fs, r, n, w) for (k, r, n) in jobs for w in WIDTHS.get(k, (8, 16, 32, 64)) if widths is None or w in widths]
     todo.sort(key=lambda j: j[4])          # the small words have the long unrollings: start them first
     with mp.get_context("fork").Pool(min(16, len(todo))) as pool:
         for items in pool.imap_unordered(_job, todo, chunksize=1):
